@@ -5,14 +5,12 @@ import json as _json
 PROP = "C13"
 LEVEL = "proof"
 LEVEL_TEXT = "partial"
-LEVEL_NOTE = ("proved for all inputs: the PhyloXML clade round trip (same rose); Newick -> Nexus -> parse without translate table "
-              "(token level for any Newick writer/parser; with the C01 writer/parser every tree comes back with the same rose) under "
-              "decidable side conditions on the written Newick text (newick_ok: readable inside a TREE command) and the taxon sets; "
-              "with a translate table at the token level, plus 'the table read back inverts the writer's map' and 'Rename with an "
-              "inverse table preserves the rose'; first-tree = head of iteration for the four formats; ids consecutive; the "
-              "multi-Newick reader as a function of the physical lines. Not proved, checked by the correspondence on every case: "
-              "that newick_ok holds for every written tree with legal labels, and the no-duplicate side conditions of Tree.Rename "
-              "in the translate chain. The XML and JSON text layers are encoding/xml / encoding/json (trusted, observed)")
+LEVEL_NOTE = ("proved for all inputs on the common domain stated on the trees themselves (inside C01's quantifier, no comment, no "
+              "p-value, tip names = Nexus labels, distinct node names, inner names neither labels nor numbers, same taxa in every "
+              "tree): Newick -> Nexus (with and without translate table) -> Newick returns the same roses in order under tree<id> "
+              "(C13_conversions), Newick -> PhyloXML -> Newick returns shape, names, lengths, supports; first-tree = head of "
+              "iteration for the four formats; ids consecutive; the multi-Newick reader as a function of the physical lines. "
+              "The XML and JSON text layers are encoding/xml / encoding/json (trusted, observed on every case)")
 RULE = ("lists of 1..5 random well-formed trees (2..12 tips, rooted / unrooted / multifurcating, parent slots at random "
         "positions, lengths absent/zero/dyadic, supports on unnamed inner branches, named inner nodes) with labels legal in "
         "the three formats (plain, digits only, UTF-8, punctuation other than blanks = quotes < > & and the Newick "
@@ -30,6 +28,8 @@ TRUSTED = ["tree built through NewNode/NewEdge + verif hooks; dump through Neigh
 ASSUMPTIONS = ["the quantifier 'tree lists' is read as: any sequence of ';'-terminated Newick trees separated by arbitrary "
                "white space and line breaks (Newick has no line structure; readln.go documents that a tree may span lines): "
                "two trees on one physical line are inside it",
+               "strconv: C01's strconv_ok, and FormatFloat(x,'f',-1,64) prints no '=' (hypotheses of C13_conversions)",
+               "the number of taxa of a list is below 2^63 (ParseInt range of DIMENSIONS NTAX)",
                "labels additionally must not be a Nexus keyword in any letter case (the scanner turns a bare end, tree, gap ... "
                "into a keyword token) and must be distinct within a tree"]
 
